@@ -306,13 +306,20 @@ func Check(reg *Registry, property, tier, verifDir string) int {
 	}
 	exit := 0
 	var replayPath string
-	if len(harness) > 0 {
+	// Harness trouble (a world that cannot be set up, a worker that died) makes the check exit 2 - unless a
+	// violation of the property was found as well and reproduces in a fresh process: code under test that
+	// carries damage from one run to the next inside a worker process (seed C14-i: a pooled hasher left dirty)
+	// also breaks the set-up of later runs in that process, and the violation is the verdict then.
+	harnessTrouble := len(harness) > 0
+	if harnessTrouble {
 		sort.Strings(harness)
 		for i, h := range harness {
 			if i < 5 {
 				fmt.Fprintf(os.Stderr, "HARNESS: %s\n", h)
 			}
 		}
+	}
+	if len(fresh) == 0 && harnessTrouble {
 		exit = 2
 	}
 	if len(fresh) > 0 && exit == 0 {
